@@ -1,3 +1,37 @@
+mod c04;
+mod certgen;
+mod jsonfmt;
+mod util;
+
+use vcore::{Monitor, Tier};
+
+#[global_allocator]
+static A: vcore::alloc::Counting = vcore::alloc::Counting;
+
 fn main() {
-    println!("skeleton");
+    let args = vcore::parse_args();
+    vcore::install_panic_hook();
+    let threads = vcore::default_threads();
+    match args.prop.as_str() {
+        "C04" => {
+            let mut mon = Monitor::new(&args);
+            let Some(shared) = c04::prepare(&mut mon) else {
+                mon.finish(c04::RULE, &c04::ASSUMPTIONS, 1);
+            };
+            let (shards, per) = match args.tier {
+                Tier::Quick => (16, 6),
+                Tier::Thorough => (64, 60),
+            };
+            vcore::run_shards(&mut mon, shards, threads, |s, m| {
+                if let Err(p) = vcore::catch(|| c04::run_shard(s, m, &shared, per)) {
+                    m.inconclusive(&format!("harness panic in shard {s}: {p}"));
+                }
+            });
+            mon.finish(c04::RULE, &c04::ASSUMPTIONS, 500);
+        }
+        other => {
+            eprintln!("mon-wire: unknown property {other}");
+            std::process::exit(2);
+        }
+    }
 }
